@@ -3,6 +3,7 @@ package main
 import (
 	"fmt"
 	"github.com/cockroachdb/errors/errorspb"
+	"strings"
 
 	"github.com/cockroachdb/errors"
 	"github.com/cockroachdb/errors/errbase"
@@ -87,6 +88,44 @@ func wireBytesSX(e error) SX {
 		return Sym("marshal-error")
 	}
 	return Str(string(b))
+}
+
+// payBytesSX: the protobuf bytes of full_details (the Any) of every visible layer, in wire order;
+// (none) when absent, (skip) for the payloads the byte-level model does not cover (a nested
+// EncodedError, a gRPC status).
+func payBytesSX(e error) SX {
+	enc := errors.EncodeError(bgCtx, e)
+	var out []SX
+	add := func(d *errorspb.EncodedErrorDetails) {
+		a := d.FullDetails
+		switch {
+		case a == nil:
+			out = append(out, L(Sym("none")))
+		case strings.HasSuffix(a.TypeUrl, "cockroach.errorspb.EncodedError") || strings.HasSuffix(a.TypeUrl, "google.rpc.Status"):
+			out = append(out, L(Sym("skip")))
+		default:
+			b, err := a.Marshal()
+			if err != nil {
+				out = append(out, Sym("marshal-error"))
+				return
+			}
+			out = append(out, Str(string(b)))
+		}
+	}
+	var walk func(x *errorspb.EncodedError)
+	walk = func(x *errorspb.EncodedError) {
+		if l := x.GetLeaf(); l != nil {
+			add(&l.Details)
+			for i := range l.MultierrorCauses {
+				walk(l.MultierrorCauses[i])
+			}
+		} else if w := x.GetWrapper(); w != nil {
+			add(&w.Details)
+			walk(&w.Cause)
+		}
+	}
+	walk(&enc)
+	return L(out...)
 }
 
 func isSX(e error, refs []error) SX {
@@ -218,6 +257,7 @@ func obsCase(e error, refs []error) SX {
 		L(Sym("enc"), optSX(func() SX { return encSX(e) })),
 		L(Sym("detbytes"), optSX(func() SX { return detBytesSX(e) })),
 		L(Sym("wirebytes"), optSX(func() SX { return wireBytesSX(e) })),
+		L(Sym("paybytes"), optSX(func() SX { return payBytesSX(e) })),
 		L(Sym("h1tree"), onHop(h1, ok1, treeSX)),
 		L(Sym("h1enc"), onHop(h1, ok1, encSX)),
 		L(Sym("h2enc"), onHop(h2, ok2, encSX)),
